@@ -387,6 +387,13 @@ func wirePartialPass(seed int64, batches []lbBatch) map[string]*lbFam {
 type eioConn struct {
 	*net.UDPConn
 	fail *atomic.Int32
+	// partial: 1 = the next sendmmsg is done by the kernel with UDP_SEGMENT
+	// messages refused (so it stops in front of the first merged message and
+	// reports how many it sent), 2 = the next sendmmsg fails with EIO.  This is
+	// what a kernel does whose route cannot take UDP_SEGMENT: the messages in
+	// front are sent, the error is reported by the following call.
+	partial *atomic.Int32
+	v6      bool
 }
 
 func (c *eioConn) SyscallConn() (syscall.RawConn, error) {
@@ -394,16 +401,42 @@ func (c *eioConn) SyscallConn() (syscall.RawConn, error) {
 	if err != nil {
 		return nil, err
 	}
-	return &eioRaw{RawConn: rc, fail: c.fail}, nil
+	return &eioRaw{RawConn: rc, c: c}, nil
 }
 
 type eioRaw struct {
 	syscall.RawConn
-	fail *atomic.Int32
+	c *eioConn
+}
+
+func (r *eioRaw) noCheck(on int) {
+	r.RawConn.Control(func(fd uintptr) {
+		if r.c.v6 {
+			unix.SetsockoptInt(int(fd), unix.IPPROTO_UDP, unix.UDP_NO_CHECK6_TX, on)
+		} else {
+			unix.SetsockoptInt(int(fd), unix.SOL_SOCKET, unix.SO_NO_CHECK, on)
+		}
+		if on == 0 {
+			unix.GetsockoptInt(int(fd), unix.SOL_SOCKET, unix.SO_ERROR) // clears the error the refused message left
+		}
+	})
 }
 
 func (r *eioRaw) Write(f func(fd uintptr) bool) error {
-	if r.fail.Add(-1) >= 0 {
+	if r.c.partial != nil {
+		switch r.c.partial.Load() {
+		case 1:
+			r.c.partial.Store(2)
+			r.noCheck(1)
+			err := r.RawConn.Write(f)
+			r.noCheck(0)
+			return err
+		case 2:
+			r.c.partial.Store(3)
+			return os.NewSyscallError("sendmmsg", unix.EIO)
+		}
+	}
+	if r.c.fail.Add(-1) >= 0 {
 		return os.NewSyscallError("sendmmsg", unix.EIO)
 	}
 	return r.RawConn.Write(f)
@@ -411,7 +444,7 @@ func (r *eioRaw) Write(f func(fd uintptr) bool) error {
 
 // attemptEIO: a fresh bind (GSO can be disabled only once per bind and family),
 // first sendmmsg of the public Send fails with EIO.
-func attemptEIO(rxs *wireEnv, fam string, sizes, caps []int, sticky bool) (gotSizes []int, diff int, lossOnly bool, errText string, skipped string) {
+func attemptEIO(rxs *wireEnv, fam string, sizes, caps []int, sticky, partial bool) (gotSizes []int, diff int, lossOnly bool, errText string, skipped string) {
 	a := conn.NewStdNetBind()
 	_, portA, err := a.Open(0)
 	if err != nil {
@@ -422,9 +455,9 @@ func attemptEIO(rxs *wireEnv, fam string, sizes, caps []int, sticky bool) (gotSi
 	if (fam == "v4" && !tx4) || (fam == "v6" && !tx6) {
 		return nil, -1, false, "", "tx offload (UDP_SEGMENT) not available for " + fam
 	}
-	var fail atomic.Int32
+	var fail, part atomic.Int32
 	if err := conn.VerifWrapPacketConn(a, fam == "v6", func(c *net.UDPConn) net.PacketConn {
-		return &eioConn{UDPConn: c, fail: &fail}
+		return &eioConn{UDPConn: c, fail: &fail, partial: &part, v6: fam == "v6"}
 	}); err != nil {
 		return nil, -1, false, "", err.Error()
 	}
@@ -461,11 +494,20 @@ func attemptEIO(rxs *wireEnv, fam string, sizes, caps []int, sticky bool) (gotSi
 		bufs[i] = b
 		want[i] = append([]byte{}, b...)
 	}
-	fail.Store(1)
+	if partial {
+		part.Store(1)
+	} else {
+		fail.Store(1)
+	}
 	err = a.Send(bufs, ep)
 	var ge conn.ErrUDPGSODisabled
 	switch {
-	case fail.Load() >= 1:
+	case partial && part.Load() == 2 && err == nil:
+		// the kernel took the whole merged vector although checksums were switched
+		// off on the socket: the partial acceptance cannot be produced here
+		rxs.collectWire(fam, len(want))
+		return nil, -1, false, "", "kernel accepts UDP_SEGMENT with checksums off; 'sent some, then EIO' cannot be produced"
+	case !partial && fail.Load() >= 1:
 		// the failure was not consumed?  cannot happen with a non-empty batch
 		errText = "injected EIO not consumed"
 	case errors.As(err, &ge):
@@ -521,8 +563,40 @@ func eioBatches(seed int64, count int) []lbBatch {
 	return out
 }
 
-func wireEIOPass(seed int64, count int) map[string]*lbFam {
-	const pass = "wire_eio"
+// eioPartialBatches: the merged form begins with lone datagrams, a merged run follows.
+func eioPartialBatches(seed int64, count int) []lbBatch {
+	r := rand.New(rand.NewSource(seed*49979687 + 13))
+	fixed := [][]int{{500, 1000, 1000}, {100, 200, 300, 300}, {1452, 148, 148, 148}, {32, 1452, 1452, 1452, 92}, {9, 10, 11, 400, 400}}
+	var out []lbBatch
+	for len(out) < count {
+		var sizes []int
+		if len(out) < len(fixed) {
+			sizes = fixed[len(out)]
+		} else {
+			s := 4 + r.Intn(200)
+			for n := 1 + r.Intn(4); n > 0; n-- { // growing: none of these merges
+				sizes = append(sizes, s)
+				s += 1 + r.Intn(200)
+			}
+			run := s + 1 + r.Intn(800)
+			for n := 2 + r.Intn(5); n > 0; n-- {
+				sizes = append(sizes, run)
+			}
+			if r.Intn(2) == 0 {
+				sizes = append(sizes, pick(r, []int{32, 92, 148}), pick(r, []int{32, 92, 148}))
+			}
+		}
+		caps := make([]int, len(sizes))
+		for i := range caps {
+			caps[i] = 65535
+		}
+		out = append(out, lbBatch{sizes, caps})
+	}
+	return out
+}
+
+func wireEIOPass(pass string, batches []lbBatch) map[string]*lbFam {
+	partial := pass == "wire_eio_partial"
 	res := map[string]*lbFam{}
 	rxs, err := openWire("wire_offload") // only its plain receiving sockets are used
 	if err != nil {
@@ -530,7 +604,6 @@ func wireEIOPass(seed int64, count int) map[string]*lbFam {
 		return res
 	}
 	defer rxs.close()
-	batches := eioBatches(seed, count)
 	for _, fam := range []string{"v4", "v6"} {
 		if rxs.rx[fam] == nil {
 			res[fam] = skippedFam("no plain UDP socket on loopback for " + fam)
@@ -540,7 +613,7 @@ func wireEIOPass(seed int64, count int) map[string]*lbFam {
 		res[fam] = fr
 		for i, b := range batches {
 			sticky := i%3 == 2
-			got, diff, lossOnly, errText, skipped := attemptEIO(rxs, fam, b.sizes, b.caps, sticky)
+			got, diff, lossOnly, errText, skipped := attemptEIO(rxs, fam, b.sizes, b.caps, sticky, partial)
 			if skipped != "" {
 				res[fam] = skippedFam(skipped)
 				break
@@ -549,7 +622,7 @@ func wireEIOPass(seed int64, count int) map[string]*lbFam {
 			fr.Datagrams += len(b.sizes)
 			if diff >= 0 && lossOnly {
 				fr.Retried++
-				got, diff, _, errText, _ = attemptEIO(rxs, fam, b.sizes, b.caps, sticky)
+				got, diff, _, errText, _ = attemptEIO(rxs, fam, b.sizes, b.caps, sticky, partial)
 			}
 			if diff >= 0 {
 				fr.Failures = append(fr.Failures, lbFailure{Family: fam, Pass: pass, Sizes: b.sizes, Caps: b.caps, GotSizes: got,
@@ -563,8 +636,9 @@ func wireEIOPass(seed int64, count int) map[string]*lbFam {
 func runLoopback3(seed int64, nb int) map[string]any {
 	pb := genBatches(seed+2, nb/2+4)
 	return map[string]any{
-		"wire_partial": wirePartialPass(seed, pb),
-		"wire_eio":     wireEIOPass(seed, nb/3+6),
+		"wire_partial":     wirePartialPass(seed, pb),
+		"wire_eio":         wireEIOPass("wire_eio", eioBatches(seed, nb/3+6)),
+		"wire_eio_partial": wireEIOPass("wire_eio_partial", eioPartialBatches(seed, nb/4+5)),
 	}
 }
 
@@ -592,8 +666,8 @@ func replayLoopback3(cs []*Case) map[string]any {
 		var lossOnly bool
 		var errText, skipped string
 		run := func() {
-			if c.Pass == "wire_eio" {
-				got, diff, lossOnly, errText, skipped = attemptEIO(e, fam, c.Sizes, c.Caps, c.Sticky)
+			if c.Pass == "wire_eio" || c.Pass == "wire_eio_partial" {
+				got, diff, lossOnly, errText, skipped = attemptEIO(e, fam, c.Sizes, c.Caps, c.Sticky, c.Pass == "wire_eio_partial")
 			} else {
 				caps := c.Caps
 				if caps == nil {
